@@ -66,6 +66,14 @@ def builtin_sampler_faults(chk: Check, rng):
         cfg = {"lineup": [(first, rng.randint(2, 4), None)] + [(nm, rng.randint(1, 3) if nm != "BestBatchSampler" else 2, None) for nm in rest], "dims": rng.randint(1, 3),
                "loss": "minkowski", "ensemble": rng.randint(1, 2), "seed": rng.randrange(10 ** 6), "n_jobs": 1}
         nb = len(cfg["lineup"]) + 1
+        follow = 1
+        if ci % 3 == 1:
+            # the RL scheduler with an agent that explores all the time: after the failure ANY sampler may come next - one with a smaller batch than the
+            # swarm's, and then the swarm again, which finds at its cursor rows that are not its own and fewer than its batch
+            cfg["lineup"] = [("ParticleSwarmSampler", rng.randint(3, 4), None), ("HaltonSampler", rng.randint(1, 2), None), ("RandomUniformSampler", 1, None)]
+            cfg["sched"] = "rl"; cfg["agent_eps"] = 1.0; cfg["agent_ctor_seed"] = rng.randrange(10 ** 6)
+            nb, follow = 4, 6
+            first = "ParticleSwarmSampler:RL"
         with contextlib.redirect_stdout(io.StringIO()), warnings.catch_warnings():
             warnings.simplefilter("ignore")
             try:
@@ -101,9 +109,9 @@ def builtin_sampler_faults(chk: Check, rng):
                     chk.fail("history after the failure is not the prefix of the fault-free run (built-in samplers)", case)
                 try:
                     b0 = cal.current_batch_index
-                    cal.calibrate(1)
-                    if cal.current_batch_index != b0 + 1:
-                        chk.fail("calibrate(1) after the failure did not add exactly one batch (built-in samplers)", case)
+                    cal.calibrate(follow)
+                    if cal.current_batch_index != b0 + follow:
+                        chk.fail(f"calibrate({follow}) after the failure did not add exactly {follow} batch(es) (built-in samplers)", case)
                 except Exception as e:  # noqa: BLE001
                     chk.fail(f"built-in line-up {[x[0] for x in cfg['lineup']]}: calibrate() after a failure at model call {k} ({b0} batches completed) raised {type(e).__name__}: {str(e)[:80]}", case)
 
@@ -142,7 +150,12 @@ def pso_bookkeeping(chk: Check, rng):
                 break
             r = rng.random()
             if r < (0.6 if call == 0 and ci % 4 == 0 else 0.3):
-                pass                                     # the batch failed in the model or the loss: nothing recorded
+                # the batch failed in the model or the loss: nothing of it is recorded.  With the RL scheduler any sampler may be picked next: another one,
+                # with a batch smaller or larger than the swarm's, may record its rows before the swarm is asked again (the rows the swarm then finds at its
+                # cursor are not its own, and may be fewer than its batch)
+                if rng.random() < 0.5:
+                    n += rng.randint(1, bs + 2)
+                    chk.count("pso_bookkeeping:other_sampler_after_failed_swarm_batch")
             else:
                 n += bs + (rng.randint(1, 5) if rng.random() < 0.4 else 0)      # recorded, possibly followed by other samplers' batches
         chk.case(["pso", bs, ns], len(set(ns)) < len(ns), {"batch_size": bs, "history_lengths_handed": ns})
